@@ -16,42 +16,41 @@ Definition all_done (s : qstate) : bool :=
 
 Section Trace.
 Variables (threshold cap : nat) (programs : list (list (list ev))).
-Hypothesis threshold_pos : 1 <= threshold.
-(* event identifiers are globally distinct *)
-Hypothesis distinct : NoDup (concat (concat programs)).
+(* the flush threshold is at least 1 and event identifiers are globally distinct *)
+Definition pre : Prop := 1 <= threshold /\ NoDup (concat (concat programs)).
 
 Definition reachable (s : qstate) : Prop := exists ls, qrun (qinit threshold cap programs) ls = Some s.
 
 (* mutual exclusion: the model's lock is a lock *)
-Definition stmt_q_mutex : Prop := forall s, reachable s -> holders s <= 1.
+Definition stmt_q_mutex : Prop := pre -> forall s, reachable s -> holders s <= 1.
 
 (* conservation: delivered ++ in the channel ++ pending is exactly what was appended, in append
    order - nothing lost, nothing duplicated, nothing reordered *)
-Definition stmt_q_conservation : Prop := forall s, reachable s ->
+Definition stmt_q_conservation : Prop := pre -> forall s, reachable s ->
   concat (q_delivered s) ++ concat (q_chan s) ++ q_pending s = q_log s /\ NoDup (q_log s).
 
 (* events of one producer are appended (hence delivered) in the order it queued them *)
-Definition stmt_q_producer_order : Prop := forall s i prog, reachable s ->
+Definition stmt_q_producer_order : Prop := pre -> forall s i prog, reachable s ->
   nth_error programs i = Some prog ->
   exists k, filter (mine prog) (q_log s) = firstn k (concat prog).
 
 (* when every producer has finished, every event has been appended exactly once *)
-Definition stmt_q_complete : Prop := forall s, reachable s -> all_done s = true ->
+Definition stmt_q_complete : Prop := pre -> forall s, reachable s -> all_done s = true ->
   Permutation (q_log s) (concat (concat programs)).
 
 (* no batch exceeds the threshold; outside a critical section fewer than threshold are pending *)
-Definition stmt_q_batch_bound : Prop := forall s, reachable s ->
+Definition stmt_q_batch_bound : Prop := pre -> forall s, reachable s ->
   Forall (fun b => length b <= threshold) (q_delivered s ++ q_chan s) /\
   length (q_pending s) <= threshold /\
   (lock_free s = true -> length (q_pending s) < threshold).
 
 (* a flush tick leaves nothing pending: everything queued before it is in the channel or delivered *)
-Definition stmt_q_tick_flushes : Prop := forall s s', reachable s -> qstep s LTickSend = Some s' ->
+Definition stmt_q_tick_flushes : Prop := pre -> forall s s', reachable s -> qstep s LTickSend = Some s' ->
   q_pending s' = [] /\ concat (q_delivered s') ++ concat (q_chan s') = q_log s'.
 
 (* no deadlock while the consumer keeps reading: whenever the lock is held, its holder or the
    consumer can take a step; and the consumer can always drain a non-empty channel *)
-Definition stmt_q_progress : Prop := forall s, reachable s ->
+Definition stmt_q_progress : Prop := pre -> forall s, reachable s ->
   (lock_free s = false -> exists l s', qstep s l = Some s') /\
   (q_chan s <> [] -> exists s', qstep s LRecv = Some s').
 End Trace.
